@@ -525,6 +525,8 @@ impl Complete {
             .comps
             .iter()
             .filter(|c| c.depth() == max_depth && (!pos_only || c.is_pos()))
+            // while the value of `--name=val` / `-n=val` is being typed only that value can be completed
+            .filter(|c| matches!(prefix, Prefix::NA) || c.only_value())
         {
             match (only_values, item.only_value()) {
                 (true, true) | (false, false) => {}
